@@ -334,29 +334,19 @@ where
     }
 
     fn _set_extension(&mut self, extension: &str) -> bool {
-        if self.file_stem().is_none() {
-            return false;
-        }
+        let file_stem = match self.file_stem() {
+            Some(stem) => stem,
+            None => return false,
+        };
 
-        let old_ext_len = self.extension().map(|ext| ext.len()).unwrap_or(0);
-
-        // Truncate to remove the extension
-        if old_ext_len > 0 {
-            self.inner.truncate(self.inner.len() - old_ext_len);
-
-            // If we end with a '.' now from the previous extension, remove that too
-            if self.inner.ends_with('.') {
-                self.inner.pop();
-            }
-        }
+        // Truncate until right after the file stem, which is a slice of our inner string
+        let end_file_stem = file_stem.as_ptr() as usize + file_stem.len();
+        let start = self.inner.as_ptr() as usize;
+        self.inner.truncate(end_file_stem - start);
 
         // Add the new extension if it exists
         if !extension.is_empty() {
-            // Add a '.' at the end prior to adding the extension
-            if !self.inner.ends_with('.') {
-                self.inner.push('.');
-            }
-
+            self.inner.push('.');
             self.inner.push_str(extension);
         }
 
